@@ -165,4 +165,27 @@ def specObs (o : Obs) : Bool :=
   let leader := o.roles.any (fun r => r == some Role.leader)
   !o.health.healthy || (leader && decide (V.length < 2 * av))
 
+/-- entries of `a` for ids other than `id` are entries of `b` -/
+def othersKept (id : Nat) (a b : List NodeCfg) : Bool := a.all (fun n => n.id == id || b.contains n)
+
+/-- C33 over one step: besides `specObs` on the observation after the operation, the
+*reported configuration* must be the one the membership history says — an acknowledged
+`add_node(id, voter)` leaves an entry `(id, voter)` and touches no other id, an acknowledged
+`remove_node(id)` leaves no entry for `id` and touches no other id, an acknowledged
+`update_config` installs the given list, everything else leaves the configuration alone.
+(Otherwise "the distinct voting members" that health is computed over would not be the
+cluster's members: a voter/learner change that is silently dropped keeps the report
+self-consistent but wrong.) -/
+def specStep (pre : Obs) (op : Op) (post : Obs) : Bool :=
+  specObs post &&
+  match op with
+  | .add id v =>
+      !post.ok || (post.nodes.any (fun n => n.id == id && n.voter == v)
+        && othersKept id pre.nodes post.nodes && othersKept id post.nodes pre.nodes)
+  | .remove id =>
+      !post.ok || (post.nodes.all (fun n => n.id != id)
+        && othersKept id pre.nodes post.nodes && othersKept id post.nodes pre.nodes)
+  | .updateConfig ns => if post.ok then post.nodes == ns else post.nodes == pre.nodes
+  | _ => post.nodes == pre.nodes
+
 end SgModel.Quorum
